@@ -15,6 +15,9 @@ class C12(Machine):
 
     def gen_params(self, sc, rng):
         sc["params"] = {"prefix": rng.choice([0, 1, 2, 3]), "queries": rng.randint(2, 7), "p_fault": 0.25, "p_twin": 0.35}
+        # interleaved histories: the diagram keeps growing between set queries, so that sets
+        # cached on a stub meet a later expansion (any strategy, incl. the source shortcuts)
+        sc["params"]["p_grow"] = rng.choice([0.0, 0.0, 0.25, 0.4])
         if rng.random() < 0.5:
             sc["walk_seed"] = rng.randrange(1 << 30)
         if rng.random() < 0.25:
@@ -41,6 +44,11 @@ class C12(Machine):
         if st["n_q"] >= p["queries"]:
             return None
         st["n_q"] += 1
+        if p.get("p_grow") and rng.random() < p["p_grow"]:
+            if rng.random() < 0.5:
+                # the strategies that mark nodes expanded without the per-node expansion routine
+                return rng.choice([{"op": "block", "maa": rng.random() < 0.6, "size": None, "opt_src": True, "exact": False}, {"op": "scc", "maa": rng.random() < 0.6}, {"op": "build"}])
+            return structural_op(world, rng)
         r = rng.random()
         if r < p["p_fault"]:
             rr = rng.random()
